@@ -16,7 +16,7 @@ TEXT = {
         engine="choice (E1)",
         design_ref="DESIGN.md §3 C11",
         technique="tiered bounded-exhaustive generation of AML programs from the supported grammar subset, encoded by an independent encoder and compared with a reference namespace built from the AST; differential cross-check on an overlay with the kept candidate repair",
-        text="T1 every construct (20) x name form (7) x container (13) x PkgLength encoding; T2 59 call/field/operator/module-level programs (method names shadowed at two levels of one ancestor chain, field unit widths around every length-encoding boundary, forward, backward and nested calls, calls inside If/While/Store/Add/DerefOf/Index, calls with operator arguments, calls as the last operand of module-level operators, operators nested in SuperName operands such as SizeOf(DerefOf(Index(..))), module-level code) x containers and every ordered pair of constructs; T3 nested containers; T4 two- and three-table loads on one parser (Scope into / call into an earlier table; later tables after a table with deferred Buffer/While/Package blocks); T5 chains of Scope / relocation blocks that need several resolve passes, in every order. For every program the reference accepts: ParseAML succeeds, every named object is found at the absolute path ACPI scoping gives it with its declared kind, constants/strings/buffer bytes/field offset+width/mutex level carry the encoded values, every method invocation anywhere has exactly the declared number of arguments attached, no named object sits at a path the program does not declare. Failures whose program exhibits one of the two known root causes (by structural predicate) are reported as known findings and must pass on a second build with the kept repair applied through the overlay; any other failure is a violation.",
+        text="T1 every construct (20) x name form (7) x container (13) x PkgLength encoding; T2 59 call/field/operator/module-level programs (method names shadowed at two levels of one ancestor chain, field unit widths around every length-encoding boundary, forward, backward and nested calls, calls inside If/While/Store/Add/DerefOf/Index, calls with operator arguments, calls as the last operand of module-level operators, operators nested in SuperName operands such as SizeOf(DerefOf(Index(..))), module-level code) x containers and every ordered pair of constructs; T3 nested containers; T4 two- and three-table loads on one parser (Scope into / call into an earlier table; later tables after a table with deferred Buffer/While/Package blocks); T5 chains of Scope / relocation blocks that need several resolve passes, in every order. For every program the reference accepts: ParseAML succeeds, every named object is found at the absolute path ACPI scoping gives it with its declared kind, constants/strings/buffer bytes/field offset+width/mutex level carry the encoded values, every method invocation anywhere has exactly the declared number of arguments attached, no named object sits at a path the program does not declare. Failures whose program exhibits one of the two known root causes (by structural predicate) are reported as known findings and must pass on a second build with the kept repair applied through the overlay; any other failure is a violation. Multi-table loads include every ordered pair and triple of tables that each declare field units.",
         note="Programs up to the tier sizes; conditionally declared objects (If at table level) are dynamic and outside the static namespace.",
     ),
     "C12": dict(
@@ -30,7 +30,7 @@ TEXT = {
         engine="choice (E1)",
         design_ref="DESIGN.md §3 C20",
         technique="bounded-exhaustive enumeration of generated source trees x every iteration order of every map-typed range (Go's map iteration turned into an explorer choice by a go/types-driven rewrite) against an independent scanner",
-        text="redirects.go is type-checked and every map-typed range in it is rewritten to iterate in an order the explorer chooses; FindRedirects then runs on generated trees (every single item and ordered pair of 11 declaration kinds incl. look-alikes on vars, types, in bodies, detached or trailing comments, prose mentions; triples; multi-file trees with nested directories, _test.go and non-Go files; directory and file names that are prefixes of one another; large files whose annotation starts at every offset around the 4 KiB boundaries 1,2,3,4,16) under every iteration order (full product for one map, deviation-bounded across several). The table must contain exactly the (source symbol, fully qualified destination) pairs an independent go/parser scanner finds on function declarations, and must be identical under every explored iteration order; the kernel tree itself is checked against the scanner.",
+        text="redirects.go is type-checked and every map-typed range in it is rewritten to iterate in an order the explorer chooses; FindRedirects then runs on generated trees (every single item and ordered pair of 11 declaration kinds incl. look-alikes on vars, types, in bodies, detached or trailing comments, prose mentions; triples; multi-file trees with nested directories, _test.go and non-Go files; directory and file names that are prefixes of one another; large files whose annotation starts at every offset around the 4 KiB boundaries 1,2,3,4,16) under every iteration order (full product for one map, deviation-bounded across several). The table must contain exactly the (source symbol, fully qualified destination) pairs an independent go/parser scanner finds on function declarations, and must be identical under every explored iteration order; the kernel tree itself is checked against the scanner. Every tree is journalled, so a fatal exit inside FindRedirects is attributed to its tree and replayed alone (two calls on fresh Contexts must agree).",
         note="Any deterministic order is accepted; the ELF symbol lookup (CompleteRedirects) is outside the property.",
     ),
     "C18": dict(
@@ -44,7 +44,7 @@ TEXT = {
         engine="choice (E1)",
         design_ref="DESIGN.md §3 C19",
         technique="full product of console geometries x argument boundary values per operation on the real drivers (loop-instrumented for a deterministic watchdog) against a pixel-level reference",
-        text="For every framebuffer configuration (grids 1..3 x 1..3, 3-7 fonts 8..16 px wide incl. the shipped ones, depths 8/15/16/24/32 with four mask layouts, pitch padding, logo rows, remainder rows, pristine and fully written pre-states) and every text-mode grid 1..4 x 1..4 and 80x25, Write, Fill and Scroll are called with every argument from {0,1,2,dim-1,dim,dim+1,2^31,2^32-2,2^32-1}: Write changes exactly the addressed cell's pixels (glyph bits in fg, rest in bg, packed for the pixel format) and nothing for off-grid coordinates; Fill changes exactly the clamped+clipped rectangle; Scroll by 1..rows moves the lines and leaves the logo alone, any other count changes nothing; no byte outside the addressed cells, in the padding or outside the framebuffer (bounds panic) is touched; no operation loops beyond 10^6 instrumented iterations. Colours are taken from the reference's own palette: Write/Fill after a palette entry was redefined (incl. colours that pack identically), and after every sequence of <=3 earlier writes, fills and palette redefinitions, must paint with the colours as redefined.",
+        text="For every framebuffer configuration (grids 1..3 x 1..3, 3-7 fonts 8..16 px wide incl. the shipped ones, depths 8/15/16/24/32 with four mask layouts, pitch padding, logo rows, remainder rows, pristine and fully written pre-states) and every text-mode grid 1..4 x 1..4 and 80x25, Write, Fill and Scroll are called with every argument from {0,1,2,dim-1,dim,dim+1,2^31,2^32-2,2^32-1}: Write changes exactly the addressed cell's pixels (glyph bits in fg, rest in bg, packed for the pixel format) and nothing for off-grid coordinates; Fill changes exactly the clamped+clipped rectangle; Scroll by 1..rows moves the lines and leaves the logo alone, any other count changes nothing; no byte outside the addressed cells, in the padding or outside the framebuffer (bounds panic) is touched; no operation loops beyond 10^6 instrumented iterations. Colours are taken from the reference's own palette: Write/Fill after a palette entry was redefined (incl. colours that pack identically), and after every sequence of <=3 earlier writes, fills and palette redefinitions, must paint with the colours as redefined. Sequences include console re-initialisation with the mapping granted or refused among the earlier operations; sequence cases are journalled so a fatal fault is attributed and replayed alone.",
         note="Vacated lines after a scroll are unconstrained; text-mode colour indices >= 15 only assert 'addressed cell, same character'.",
     ),
     "C10": dict(
@@ -79,28 +79,28 @@ TEXT = {
         engine="sched (E3) + x86mini (E4)",
         design_ref="DESIGN.md §3 C09",
         technique="stateless model checking of the real AllocFrame/FreeFrame over the instrumented spinlock: preemption-bounded DFS + unbounded state-pruned pass, ownership table, brute-force linearizability, happens-before monitor on go/ast-inserted field hooks",
-        text="11 (thorough 17) configurations - pools of 1, 2, 1+2 and 65 frames with 63/64 pre-held (collisions inside one bitmap word and across the word boundary), 2-4 (5) callers with <=3 (4) operations from {alloc, free own newest/oldest, racing free of one shared frame, free of an unmanaged frame} - are explored for preemption bounds 0..2 and without bound. Oracles: no frame handed to two holders; call/return history linearizable against the sequential allocator model (brute force over the <=9 calls); reservedPages / pool free counts equal initial + allocations - frees once all callers stopped; a final sequential drain recovers exactly the un-held frames; lock free at the end; no deadlock; no happens-before race on any allocator field that AllocFrame/FreeFrame assign, whether it is reached through the receiver or through a local pointer into the receiver's state.",
+        text="11 (thorough 17) configurations - pools of 1, 2, 1+2 and 65 frames with 63/64 pre-held (collisions inside one bitmap word and across the word boundary), 2-4 (5) callers with <=3 (4) operations from {alloc, free own newest/oldest, racing free of one shared frame, free of an unmanaged frame} - are explored for preemption bounds 0..2 and without bound. Oracles: no frame handed to two holders; call/return history linearizable against the sequential allocator model (brute force over the <=9 calls); reservedPages / pool free counts equal initial + allocations - frees once all callers stopped; a final sequential drain recovers exactly the un-held frames; lock free at the end; no deadlock; no happens-before race on any allocator field that AllocFrame/FreeFrame assign, whether it is reached through the receiver or through a local pointer into the receiver's state. Pool layouts include pools two frames apart (inside one another's bitmap padding span) and regions listed in descending address order.",
         note="Pools are built by the real pmm.Init from a tiny multiboot map; 'up to 16 callers' is covered for 2-5 callers.",
     ),
     "C04": dict(
         engine="graph (E2) + software MMU",
         design_ref="DESIGN.md §3 C04",
         technique="explicit-state BFS over the real page-table operations on a simulated RAM + software MMU; exhaustive leaf scan of both address spaces against a reference map after every operation",
-        text="All histories of length <=2 over a 1330-operation alphabet (7 pages spread over all four table levels incl. the temporary-mapping page, 3 frames incl. 2^40-1, 5 flag sets incl. non-present, active/inactive/explicit address spaces, Activate, MapRegion/IdentityMapRegion, allocation failure at each of the first 3 allocations) from the empty state, and length <=2 (quick) / <=3 (thorough) over a reduced alphabet from five non-initial start states (all pages mapped, deepest page, second space built, second space active, planted huge page). After every operation every present leaf reachable from both roots must equal the reference bit for bit (frame + exactly the requested flags, nothing stray: this also catches uncleared new tables), Translate must agree, an operation on the inactive space must leave every table of the active space byte-identical, every changed page of the active space must have been TLB-invalidated, and an allocation failure must return that error with no translation changed.",
+        text="All histories of length <=2 over a 1330-operation alphabet (7 pages spread over all four table levels incl. the temporary-mapping page, 3 frames incl. 2^40-1, 5 flag sets incl. non-present, active/inactive/explicit address spaces, Activate, MapRegion/IdentityMapRegion, allocation failure at each of the first 3 allocations) from the empty state, and length <=2 (quick) / <=3 (thorough) over a reduced alphabet from five non-initial start states (all pages mapped, deepest page, second space built, second space active, planted huge page). After every operation every present leaf reachable from both roots must equal the reference bit for bit (frame + exactly the requested flags, nothing stray: this also catches uncleared new tables), Translate must agree, an operation on the inactive space must leave every table of the active space byte-identical, every changed page of the active space must have been TLB-invalidated, and an allocation failure must return that error with no translation changed. Start states include roots whose recursive slots carry Accessed/Dirty resp. NX/Global bits, so that an operation on the inactive space must restore the active root bit for bit.",
         note="Simulated MMU: present-bit semantics + recursive mapping only; no TLB model, caching attributes or accessed/dirty side effects; data values outside the alphabets are not explored.",
     ),
     "C05": dict(
         engine="choice (E1) + software MMU",
         design_ref="DESIGN.md §3 C05",
         technique="bounded-exhaustive enumeration of ELF section sets, reservations and allocation-failure points through the real setupPDTForKernel; exhaustive scan of the new root",
-        text="Every single section over the shape set (start offsets {0,1,0x10,0x800,0xff0,0xfff} x sizes ending one byte before / at / one / two bytes after a page boundary over 1-3 pages x W/A/X flag sets) x 5 bases x {0,1,3} reservations, every assignment of 5 frames (two runs and a foreign frame) to 1-4 reserved pages, section pairs (full product in thorough), adjacent-page and three-section sets, many-page sections, three kernel offsets and allocation failure at each of the first 14 allocations run through the real setupPDTForKernel on the software MMU. The new root is scanned exhaustively: every page of every in-range section maps to (addr-offset)>>12+i with P, RW iff writable, NX iff not executable, never user; early reservations keep their translation; nothing else is mapped; CR3 is the new root on success and unchanged on failure.",
+        text="Every single section over the shape set (start offsets {0,1,0x10,0x800,0xff0,0xfff} x sizes ending one byte before / at / one / two bytes after a page boundary over 1-3 pages x W/A/X flag sets) x 5 bases x {0,1,3} reservations, every assignment of 5 frames (two runs and a foreign frame) to 1-4 reserved pages, section pairs (full product in thorough), adjacent-page and three-section sets, many-page sections, three kernel offsets and allocation failure at each of the first 14 allocations run through the real setupPDTForKernel on the software MMU. The new root is scanned exhaustively: every page of every in-range section maps to (addr-offset)>>12+i with P, RW iff writable, NX iff not executable, never user; early reservations keep their translation; nothing else is mapped; CR3 is the new root on success and unchanged on failure. Boot-time reservation histories that contain rejected requests (every sequence of <=3/4 requests) precede the set-up as well.",
         note="Sections are delivered through the visitElfSectionsFn seam (decoding is C10) and never share a page (the property's precondition).",
     ),
     "C06": dict(
         engine="software MMU with host-aliased data pages",
         design_ref="DESIGN.md §3 C06",
         technique="exhaustive enumeration of fault situations (leaf flag product x upper-level presence x environment failures) and of fault sequences on the real page-fault handler; exhaustive guard enumeration over all mapping entry points",
-        text="The real reserveZeroedFrame, pageFaultHandler, MapTemporary and Unmap run on memfd-backed simulated RAM whose data pages are host aliases of the mapped frames. Guard: 6 mapping entry points x 32 flag subsets x {zero frame, other frame} x pages - after every call no present writable leaf to the zero frame exists in any address space. Faults: all 128 leaf flag combinations x each upper level non-present x {allocation, temporary-mapping, unmap} failures x offsets x error codes x {zero frame, shared data frame}: recoverable iff present, read-only, copy-on-write, all levels present and no failure; then the page maps a freshly allocated frame with the old flags minus CoW plus RW, contents equal what the page showed, the shared frame and every other entry untouched, TLB entry invalidated; otherwise a kernel-error panic and no entry changed. Sequences of up to 4 (6) faults over three pages sharing a frame, including repeated faults and writes through the private copies.",
+        text="The real reserveZeroedFrame, pageFaultHandler, MapTemporary and Unmap run on memfd-backed simulated RAM whose data pages are host aliases of the mapped frames. Guard: 6 mapping entry points x 32 flag subsets x {zero frame, other frame} x pages - after every call no present writable leaf to the zero frame exists in any address space. Faults: all 128 leaf flag combinations x each upper level non-present x {allocation, temporary-mapping, unmap} failures x offsets x error codes x {zero frame, shared data frame}: recoverable iff present, read-only, copy-on-write, all levels present and no failure; then the page maps a freshly allocated frame with the old flags minus CoW plus RW, contents equal what the page showed, the shared frame and every other entry untouched, TLB entry invalidated; otherwise a kernel-error panic and no entry changed. Sequences of up to 4 (6) faults over three pages sharing a frame, including repeated faults and writes through the private copies. Leaf flag sets cover the full 2^11 product of architectural bits (write-through, cache-disable, PAT/bit 7, global included).",
         note="'Resumes' = the handler returns; 'kernel panic' = Go panic with a *kernel.Error. GPF handler is not exercised.",
     ),
     "C13": dict(
